@@ -213,6 +213,10 @@ def case_topsort(case):
             for t in row:
                 I.assume(z3.Or([t == a for a in allowed]))
         items = build_items(ir, kinds, slots, tv)
+        # generate_types feeds topsort with aliases, structs, enums, consts - each sorted by name (reconcile_aliases)
+        rank = {"alias": 0, "struct": 1, "gstruct": 1, "enum": 2, "const": 3}
+        order0 = sorted(range(n), key=lambda i: (rank[kinds[i]], names[i]))
+        items = [items[i] for i in order0]
         I.call_static("topsort::topsort", [SliceRef(items, 0, len(items))])
         return tv, items
 
